@@ -128,3 +128,167 @@ Print Assumptions C07_partition_sequence_exact.
 Print Assumptions C07_below_watermark_confirmed.
 Print Assumptions C07_live_watermark_exact.
 Print Assumptions C07_live_below_watermark_confirmed.
+
+(** ---- Bridge to the storage layer (C03): the hypotheses above are facts about the real iterator ---------------
+    Until here the storage iterator is "whatever list of commits [cs] it yields".  Proofs/BridgeReadProofs.v takes
+    the iterator of Model/StoreIter.v — [scan s k from Fwd limit], C03's subject — on a store [s] and converts its
+    result to what the read loops consume: [br_pcommits] (per commit the partition sequences) and [br_scommits]
+    (per commit (stream version, partition sequence)); the batch cuts are forgotten, they are the oracle [orc].
+    The storage model keeps no confirmation counts: [conf : event -> N] assigns one to every stored event, and the
+    watermark [br_watermark q conf (abs_visible s) pid] is the length of the longest prefix of partition [pid]'s
+    stored events whose count reaches [q] (= what [wm_initialize] computes from those counts: C07_bridge_watermark).
+    Reachable store = [run ops] for any history of appends (any rollover decisions), syncs, reopens and crashes. *)
+From SV Require Import Model.StoreIter Proofs.ScanProofs Proofs.BridgeReadProofs.
+From SV Require Proofs.StoreSimProofs.
+
+(** 1. what the real forward partition scan yields satisfies the hypothesis of C07_partition_exact /
+       C07_partition_has_more, for every partition, start position and batch limit *)
+Theorem C07_scan_meets_partition_hypothesis : forall ops pid start limit,
+  Forall StoreSimProofs.wf_op ops -> (0 < limit)%nat ->
+  exists batches, scan (run ops) (KPartition pid) start Fwd limit = Some batches /\
+    ClusterReadProofs.incr start (concat (br_pcommits batches)).
+Proof. exact run_scan_meets_partition_hypothesis. Qed.
+
+(** the same on any store satisfying C03's hypothesis [Scannable] *)
+Theorem C07_scan_meets_partition_hypothesis_scannable : forall s pid start limit batches,
+  Scannable s (KPartition pid) -> (0 < limit)%nat ->
+  scan s (KPartition pid) start Fwd limit = Some batches ->
+  ClusterReadProofs.incr start (concat (br_pcommits batches)).
+Proof. exact scan_meets_partition_hypothesis. Qed.
+
+(** ... and the real forward stream scan satisfies the three hypotheses of C07_stream_exact / C07_stream_has_more,
+    provided all stored events of the stream lie in ONE partition ([br_stream_in_partition]): the sequences the
+    loop compares with the watermark must be sequences of the partition the watermark belongs to.  The storage
+    layer does not enforce this (Transaction::new takes partition key and partition id independently), the
+    servers do (id = hash(key) % num_partitions): see C07_stream_scan_unrouted_refuted and
+    C07_scan_meets_stream_hypothesis below. *)
+Theorem C07_scan_meets_stream_hypothesis_scannable : forall s sid pid start limit batches,
+  Scannable s (KStream sid) -> Scannable s (KPartition pid) ->
+  br_stream_in_partition (abs_visible s) sid pid -> (0 < limit)%nat ->
+  scan s (KStream sid) start Fwd limit = Some batches ->
+  let cs := br_scommits batches in
+  cr_all_nonempty cs /\ vincr start (concat cs) /\ sincr 0 (concat cs).
+Proof. exact scan_meets_stream_hypothesis. Qed.
+
+(** for every reachable store whose history is routed (the partition id of every appended transaction is
+    [f] of its partition key): [pk] is the partition key of the stream (well defined: C07_bridge_stream_one_key) *)
+Theorem C07_scan_meets_stream_hypothesis : forall f ops sid pk start limit,
+  Forall StoreSimProofs.wf_op ops -> br_routed f ops ->
+  (forall e, In e (all_events (abs_visible (run ops))) -> e_sid e = sid -> e_pk e = pk) -> (0 < limit)%nat ->
+  exists batches, scan (run ops) (KStream sid) start Fwd limit = Some batches /\
+    let cs := br_scommits batches in
+    cr_all_nonempty cs /\ vincr start (concat cs) /\ sincr 0 (concat cs).
+Proof. exact run_scan_meets_stream_hypothesis_routed. Qed.
+
+Theorem C07_bridge_stream_one_key : forall ops e1 e2,
+  Forall StoreSimProofs.wf_op ops ->
+  In e1 (all_events (abs_visible (run ops))) -> In e2 (all_events (abs_visible (run ops))) ->
+  e_sid e1 = e_sid e2 -> e_pk e1 = e_pk e2.
+Proof. exact br_stream_one_key. Qed.
+
+(** under routing every stream lives in one partition *)
+Theorem C07_bridge_routed_stream_one_partition : forall f ops e1 e2,
+  Forall StoreSimProofs.wf_op ops -> br_routed f ops ->
+  In e1 (all_events (abs_visible (run ops))) -> In e2 (all_events (abs_visible (run ops))) ->
+  e_sid e1 = e_sid e2 -> e_pid e1 = e_pid e2.
+Proof. exact br_routed_stream_one_partition. Qed.
+
+(** WITHOUT routing the stream statement is false of the storage model: stream 7 written through partition 0
+    (sequence 1) and then through partition 1 (sequence 0) — a history the storage layer accepts — yields the
+    sequences 1, 0; with watermark 1 the loop returns nothing although [C07_stream_exact]'s right-hand side
+    contains version 1 *)
+Theorem C07_stream_scan_unrouted_refuted :
+  Forall StoreSimProofs.wf_op br_unrouted_ops /\
+  exists batches, scan (run br_unrouted_ops) (KStream 7) 0 Fwd 5 = Some batches /\
+    concat (br_scommits batches) = [(0, 1); (1, 0)] /\
+    (forall lo, ~ sincr lo (concat (br_scommits batches))) /\
+    fst (stream_read (br_scommits batches) [] 1 None 10) = [] /\
+    firstn 10 (filter (sr_ok 1 None) (concat (br_scommits batches))) = [(1, 0)].
+Proof. exact br_unrouted_stream_refuted. Qed.
+
+(** the watermark of the bridge is the one a node computes at start-up from the on-disk counts [conf] *)
+Theorem C07_bridge_watermark : forall rf conf l pid,
+  wm_mark (wm_initialize rf wm_init (map conf (br_pevents l pid))) = br_watermark (wm_quorum rf) conf l pid.
+Proof. exact br_watermark_is_initialize. Qed.
+
+(** 2. end to end.  ReadPartition computed on what the real iterator yields, for every reachable store, count
+    assignment, quorum, request (start, end, count), batch limit and batching oracle: the result is exactly the
+    first [count] events of the specification scan [spec_scan_partition_fwd] that lie in the requested range and
+    below the watermark (identified by their partition sequences); every returned sequence is below the watermark;
+    has_more = false only if no confirmed event of the range was left out; and the watermark is the quorum
+    prefix: every stored event of the partition below it reached the quorum, the one at it did not *)
+Theorem C07_partition_read_over_storage : forall ops pid conf q start endo count limit orc,
+  Forall StoreSimProofs.wf_op ops -> (0 < limit)%nat ->
+  let s := run ops in
+  let W := br_watermark q conf (abs_visible s) pid in
+  (exists batches, scan s (KPartition pid) start Fwd limit = Some batches /\
+    let r := partition_read (br_pcommits batches) orc W start endo count in
+    fst r = map e_seq (firstn (N.to_nat count)
+                         (filter (br_prange W endo) (spec_scan_partition_fwd (abs_visible s) pid start))) /\
+    (forall x, In x (fst r) -> x < W) /\
+    (snd r = false ->
+     forall e, In e (spec_scan_partition_fwd (abs_visible s) pid start) -> br_prange W endo e = true ->
+               In (e_seq e) (fst r))) /\
+  (forall e, In e (all_events (abs_visible s)) -> e_pid e = pid -> e_seq e < W -> q <= conf e) /\
+  (forall e, In e (all_events (abs_visible s)) -> e_pid e = pid -> e_seq e = W -> conf e < q).
+Proof. exact run_partition_read_over_storage. Qed.
+
+(** ReadStream likewise (routed histories; [f pk] is the stream's partition): the result is exactly the first
+    [count] events of [spec_scan_stream_fwd] up to the end version whose sequence lies below the partition's
+    watermark, as (version, sequence); has_more = false only if that is all of them; everything returned reached
+    the quorum *)
+Theorem C07_stream_read_over_storage : forall f ops sid pk conf q start endo count limit orc,
+  Forall StoreSimProofs.wf_op ops -> br_routed f ops ->
+  (forall e, In e (all_events (abs_visible (run ops))) -> e_sid e = sid -> e_pk e = pk) -> (0 < limit)%nat ->
+  let s := run ops in
+  let pid := f pk in
+  let W := br_watermark q conf (abs_visible s) pid in
+  (exists batches, scan s (KStream sid) start Fwd limit = Some batches /\
+    let r := stream_read (br_scommits batches) orc W endo count in
+    fst r = map br_sev (firstn (N.to_nat count)
+                          (filter (br_srange W endo) (spec_scan_stream_fwd (abs_visible s) sid start))) /\
+    (forall x, In x (fst r) -> snd x < W) /\
+    (snd r = false ->
+     fst r = map br_sev (filter (br_srange W endo) (spec_scan_stream_fwd (abs_visible s) sid start)))) /\
+  (forall e, In e (all_events (abs_visible s)) -> e_sid e = sid -> e_seq e < W -> q <= conf e).
+Proof. exact run_stream_read_over_storage. Qed.
+
+(** the same two on any [Scannable] store *)
+Theorem C07_partition_read_over_scannable : forall s pid conf q start endo count limit orc,
+  Scannable s (KPartition pid) -> (0 < limit)%nat ->
+  let W := br_watermark q conf (abs_visible s) pid in
+  exists batches, scan s (KPartition pid) start Fwd limit = Some batches /\
+    let r := partition_read (br_pcommits batches) orc W start endo count in
+    fst r = map e_seq (firstn (N.to_nat count)
+                         (filter (br_prange W endo) (spec_scan_partition_fwd (abs_visible s) pid start))) /\
+    (forall x, In x (fst r) -> x < W) /\
+    (snd r = false ->
+     forall e, In e (spec_scan_partition_fwd (abs_visible s) pid start) -> br_prange W endo e = true ->
+               In (e_seq e) (fst r)).
+Proof. exact partition_read_over_scannable. Qed.
+
+Theorem C07_stream_read_over_scannable : forall s sid pid conf q start endo count limit orc,
+  Scannable s (KStream sid) -> Scannable s (KPartition pid) ->
+  br_stream_in_partition (abs_visible s) sid pid -> (0 < limit)%nat ->
+  let W := br_watermark q conf (abs_visible s) pid in
+  exists batches, scan s (KStream sid) start Fwd limit = Some batches /\
+    let r := stream_read (br_scommits batches) orc W endo count in
+    fst r = map br_sev (firstn (N.to_nat count)
+                          (filter (br_srange W endo) (spec_scan_stream_fwd (abs_visible s) sid start))) /\
+    (forall x, In x (fst r) -> snd x < W) /\
+    (snd r = false ->
+     fst r = map br_sev (filter (br_srange W endo) (spec_scan_stream_fwd (abs_visible s) sid start))).
+Proof. exact stream_read_over_scannable. Qed.
+
+Print Assumptions C07_scan_meets_partition_hypothesis.
+Print Assumptions C07_scan_meets_partition_hypothesis_scannable.
+Print Assumptions C07_scan_meets_stream_hypothesis_scannable.
+Print Assumptions C07_scan_meets_stream_hypothesis.
+Print Assumptions C07_bridge_stream_one_key.
+Print Assumptions C07_bridge_routed_stream_one_partition.
+Print Assumptions C07_stream_scan_unrouted_refuted.
+Print Assumptions C07_bridge_watermark.
+Print Assumptions C07_partition_read_over_storage.
+Print Assumptions C07_stream_read_over_storage.
+Print Assumptions C07_partition_read_over_scannable.
+Print Assumptions C07_stream_read_over_scannable.
